@@ -109,14 +109,15 @@ def check_elision(ctx: Ctx, rule: str = "R06.b"):
             continue
         if x[0] == "call" and x[1] in ("all", "any") and len(x[2]) == 1 and x[2][0][0] == "comp":
             outer = x[2][0]
-            rec_ok = len(outer[3]) == 1 and outer[3][0] == ("call", f.name, (("bv", outer[1]),), ()) and not outer[4]
+            rec_ok = len(outer[3]) == 1 and outer[3][0] == ("call", f.name, (("bv", outer[1]),), ())
             if x[1] == "any" and rec_ok:
                 verdicts.append((False, f"a product is accepted as soon as *any* remaining factor is accepted ({av.show(x)[:100]}); every one of them must be"))
                 continue
             if not rec_ok:
                 verdicts.append((None, f"the remaining factors are not each checked by {f.name} itself ({av.show(x)[:100]})"))
                 continue
-            okf, why_ = filter_ok(outer[2])
+            # the filter may be written on the sequence (<x for x in args if keep(x)>) or on the comprehension itself
+            okf, why_ = filter_ok(("comp", outer[1], outer[2], (("bv", outer[1]),), outer[4]) if outer[4] else outer[2])
             verdicts.append((okf, why_))
             continue
         if x == av.C(True):
